@@ -23,6 +23,7 @@ import (
 	nutsJwx "github.com/nuts-foundation/nuts-node/crypto/jwx"
 	"golang.org/x/crypto/ssh"
 	"io"
+	"math/big"
 	"math/rand"
 	"net/http"
 	"net/http/httptest"
@@ -671,6 +672,13 @@ func TestVerifC04Tok(t *testing.T) {
 			f := strings.Fields(k.sshLine)
 			return strings.TrimSpace(f[0] + " " + f[1] + " " + comment)
 		}
+		synth := func(n *big.Int, comment string) string {
+			pk, err := ssh.NewPublicKey(&rsa.PublicKey{N: n, E: 65537})
+			if err != nil {
+				t.Fatal(err)
+			}
+			return strings.TrimSpace(string(ssh.MarshalAuthorizedKey(pk))) + " " + comment
+		}
 		a, b, c := keys[0], keys[1], keys[2]
 		weak, nocomment, ghost, opt := vNewKey("rsa1024", "weak@verif"), vNewKey("ed", "nobody@verif"), vNewKey("ed", "ghost@verif"), vNewKey("p256", "opt@verif")
 		// RSA moduli just below / above the 2048-bit rule whose length is NOT a whole number of bytes (Size()*8 rounds them up)
@@ -691,6 +699,13 @@ func TestVerifC04Tok(t *testing.T) {
 			{"rsa-thresholds", strings.Join([]string{ak(w2047, "w2047@verif"), ak(a, "alice@verif"), ak(w2041, "w2041@verif"), ak(s2049, "s2049@verif"), ak(c, "carol@verif")}, "\n") + "\n",
 				[]holder{hAlice, {w2047, "w2047@verif", "key-weak-rsa", ""}, {w2041, "w2041@verif", "key-weak-rsa", ""}, {s2049, "s2049@verif", "valid", "s2049@verif"},
 					{c, "carol@verif", "valid", "carol@verif"}}},
+			// entries with SYNTHETIC RSA moduli on both sides of 2^2047 (nobody holds a private key for them: what matters is which
+			// of them become authorised keys); the op carries each entry's key BLOB and the model measures the modulus itself
+			{"rsa-synthetic-moduli", strings.Join([]string{synth(vPow2(2047, -1), "m2047ones@verif"), synth(vPow2(2047, 0), "m2048min@verif"), ak(a, "alice@verif"),
+				synth(vPow2(2047, 1), "m2048min1@verif"), synth(vPow2(2040, 0), "m2041@verif"), synth(vPow2(2040, -1), "m2040ones@verif"), synth(vPow2(2048, -1), "m2048ones@verif"),
+				synth(vPow2(2048, 0), "m2049@verif"), synth(vPow2(1023, 1), "m1024@verif"), synth(vPow2(2046, 12345), "m2047b@verif"), synth(vPow2(4095, 7), "m4096@verif"),
+				synth(new(big.Int).Rand(r, vPow2(2047, 0)), "mrand-below@verif"), synth(new(big.Int).Add(vPow2(2047, 0), new(big.Int).Rand(r, vPow2(2047, 0))), "mrand-above@verif")}, "\n") + "\n",
+				[]holder{hAlice}},
 			{"commented-variants", strings.Join([]string{ak(a, "alice@verif"), "\t#" + ak(ghost, "ghost@verif"), "   #   " + ak(ghost, "ghost@verif"),
 				"##" + ak(ghost, "ghost@verif"), "# " + ak(ghost, "ghost@verif") + " # twice"}, "\n"), []holder{hAlice, hGhost}},
 			{"bom-commented-key-first", bom + "#" + ak(ghost, "ghost@verif") + "\n" + ak(a, "alice@verif") + "\n", []holder{hAlice, hGhost}},
@@ -720,7 +735,7 @@ func TestVerifC04Tok(t *testing.T) {
 					if err != nil || rest != nil {
 						d["v"] = map[string]interface{}{"err": true}
 					} else {
-						v := map[string]interface{}{"kind": "other", "bits": 0, "comment": strings.TrimSpace(comment)}
+						v := map[string]interface{}{"kind": "other", "bits": 0, "comment": strings.TrimSpace(comment), "blob": hex.EncodeToString(pk.Marshal())}
 						if cp, ok := pk.(ssh.CryptoPublicKey); ok {
 							switch k := cp.CryptoPublicKey().(type) {
 							case *rsa.PublicKey:
@@ -738,7 +753,7 @@ func TestVerifC04Tok(t *testing.T) {
 			}
 			m2, err := New(nil, aud, []byte(f.content))
 			if err != nil {
-				if len(only) == 0 {
+				if len(only) == 0 || only["akeys|"+f.name] {
 					out.emit(map[string]interface{}{"op": "akeys", "file": f.name, "lines": desc}, "parse-error")
 				}
 				continue
@@ -750,7 +765,7 @@ func TestVerifC04Tok(t *testing.T) {
 				names = append(names, k.comment)
 				vkeys = append(vkeys, &vKey{name: k.comment})
 			}
-			if len(only) == 0 {
+			if len(only) == 0 || only["akeys|"+f.name] {
 				out.emit(map[string]interface{}{"op": "akeys", "file": f.name, "lines": desc}, strings.Join(names, "|"))
 			}
 			mw2 := &vMW{impl: impl2, keys: vkeys, aud: aud, e: mw.e}
@@ -806,6 +821,11 @@ func TestVerifC04Tok(t *testing.T) {
 	if out.n == 0 {
 		t.Fatal("nothing generated")
 	}
+}
+
+// vPow2 = 2^e + d
+func vPow2(e uint, d int64) *big.Int {
+	return new(big.Int).Add(new(big.Int).Lsh(big.NewInt(1), e), big.NewInt(d))
 }
 
 // ------------------------------------------------------------------ C17: the other consumers
